@@ -137,10 +137,19 @@ class CommonGenerator(mmgen.Generator):
       constrained primitives: "We handle only lists of classes ..."),
     * ``len(<bytearray>)`` only if ``bytes_len`` (the Java transpiler refuses it),
     * classes with more than one base get a docstring (without one the Java generator
-      dies in ``_generate_interface`` with a ``Stripped`` contract violation).
+      dies in ``_generate_interface`` with a ``Stripped`` contract violation),
+    * constants of primitive type, constant sets of integers and (through the profile)
+      ``float`` properties only if ``java_hostile`` (the emitted ``Constants.java`` /
+      ``Jsonization.java`` do not compile for them, see proposals/C09.md).
     """
 
     bytes_len = False
+    java_hostile = False
+
+    def gen_consts(self) -> None:
+        super().gen_consts()
+        if not self.java_hostile:
+            self.m.consts = [c for c in self.m.consts if c.kind in ("set_str", "set_enum")]
 
     def random_type(self, cls_index: int) -> mmgen.T:
         for _ in range(50):
@@ -168,11 +177,13 @@ class CommonGenerator(mmgen.Generator):
                 cls.doc = self.docstring()
 
 
-def common_profile() -> mmgen.Profile:
+def common_profile(java_hostile: bool) -> mmgen.Profile:
     return mmgen.Profile(
+        float_props=java_hostile,
         sdk_safe=True,
         n_impl_fns=(0, 0),
         p_impl_method=0,
+        p_invariant=0.9,
         list_of_lists=False,
         n_enums=(1, 3),
         n_const_sets=(1, 3),
@@ -180,9 +191,11 @@ def common_profile() -> mmgen.Profile:
     )
 
 
-def generate_model(rng, bytes_len: bool) -> mmgen.Model:
-    gen = CommonGenerator(rng, common_profile())
-    gen.bytes_len = bytes_len
+def generate_model(rng, java_hostile: bool) -> mmgen.Model:
+    """``java_hostile``: use the constructs on which the Java leg is known to fail."""
+    gen = CommonGenerator(rng, common_profile(java_hostile))
+    gen.bytes_len = java_hostile
+    gen.java_hostile = java_hostile
     return gen.generate()
 
 
@@ -409,10 +422,13 @@ class Names:
         return str(getattr(self.n, fn)(self.I(name)))
 
     def prop_map(self, facts: Facts) -> Dict[str, str]:
-        """language property name -> meta-model property name."""
+        """name of a property in a verification path -> meta-model property name."""
+        # C++ renders the ``Property`` enumeration with the getter names
+        # (cpp/lib/_generate_iteration.py:_generate_property_to_wstring_implementation).
+        fn = "getter_name" if self.target == "cpp" else "property_name"
         result: Dict[str, str] = {}
         for prop in facts.props:
-            result[self.call("property_name", prop)] = prop
+            result[self.call(fn, prop)] = prop
         return result
 
 
@@ -672,3 +688,295 @@ def run_java(
     res.records = read_jsonl(root / "out.jsonl")
     res.index()
     return res
+
+
+# --------------------------------------------------------------------- C++
+def cpp_ident(text: str) -> str:
+    assert re.fullmatch(r"[A-Za-z_][A-Za-z_0-9]*", text), text
+    return text
+
+
+def cpp_tokens(value: Any, out: List[str]) -> None:
+    """Neutral token stream of an abstract value (see native/c09/driver.cpp.in)."""
+    if value is None:
+        out.append("N")
+    elif isinstance(value, bool):
+        out.append(f"B {int(value)}")
+    elif isinstance(value, int):
+        out.append(f"L {value}")
+    elif isinstance(value, float):
+        out.append(f"D {value!r}")
+    elif isinstance(value, str):
+        out.append(f"S {value.encode('utf-8').hex()}")
+    elif isinstance(value, (bytes, bytearray)):
+        out.append(f"Y {bytes(value).hex()}")
+    elif isinstance(value, instances.EnumVal):
+        out.append(f"E {value.enum} {value.literal}")
+    elif isinstance(value, list):
+        out.append(f"A {len(value)}")
+        for item in value:
+            cpp_tokens(item, out)
+    elif isinstance(value, instances.Inst):
+        out.append(f"I {value.cls} {len(value.props)}")
+        for key, sub in value.props.items():
+            out.append(f"P {key}")
+            cpp_tokens(sub, out)
+    else:
+        raise TypeError(type(value))
+
+
+def cpp_driver_source(facts: Facts, namespace: str, prefix: str) -> str:
+    names = Names("cpp")
+    pm = facts.pm
+
+    def ctype(t: pyexec.TypeRef) -> str:
+        if t.kind == "optional":
+            return f"common::optional<{ctype(t.inner)} >"
+        if t.kind == "list":
+            return f"std::vector<{ctype(t.inner)} >"
+        prim = pm.primitive_of(t.name)
+        if prim is not None:
+            return {
+                "bool": "bool", "int": "int64_t", "float": "double", "str": "std::wstring",
+                "bytearray": "std::vector<std::uint8_t>",
+            }[prim]
+        if pm.is_enum(t.name):
+            return f"types::{names.call('enum_name', t.name)}"
+        return f"std::shared_ptr<types::{names.call('interface_name', t.name)} >"
+
+    def expr(t: pyexec.TypeRef, node: str) -> str:
+        if t.kind == "optional":
+            inner = ctype(t.inner)
+            return (
+                f"({node}.kind == 'N' ? common::optional<{inner} >() : "
+                f"common::optional<{inner} >({expr(t.inner, node)}))"
+            )
+        if t.kind == "list":
+            assert t.inner.kind == "atomic" and pm.is_class(t.inner.name), "lists of classes only"
+            return f"BuildList<types::{names.call('interface_name', t.inner.name)}>({node})"
+        prim = pm.primitive_of(t.name)
+        if prim is not None:
+            return {
+                "bool": f"{node}.b", "int": f"{node}.i", "float": f"{node}.d",
+                "str": f"Utf8ToWide({node}.text)", "bytearray": f"{node}.bytes",
+            }[prim]
+        if pm.is_enum(t.name):
+            return f"ParseEnum_{cpp_ident(t.name)}({node})"
+        return f"BuildAs<types::{names.call('interface_name', t.name)}>({node})"
+
+    builders: List[str] = []
+    for enum in facts.enums:
+        e = names.call("enum_name", enum)
+        lines = [f"types::{e} ParseEnum_{cpp_ident(enum)}(const Node& n) {{"]
+        for lit, _ in pm.classes[enum].literals:
+            lines.append(
+                f'  if (n.text == "{cpp_ident(lit)}") return types::{e}::{names.call("enum_literal_name", lit)};'
+            )
+        lines.append('  throw std::runtime_error("C09: unknown literal " + n.text);\n}')
+        builders.append("\n".join(lines))
+    for cls in facts.concrete:
+        args = pm.init_args(cls) or []
+        props = {prop.name: prop for _, prop in pm.all_props(cls)}
+        lines = [f"std::shared_ptr<types::IClass> Build_{cpp_ident(cls)}(const Node& n) {{"]
+        lines.append("  (void)n;")
+        lines.append(f"  return std::make_shared<types::{names.call('class_name', cls)}>(")
+        exprs = []
+        for arg in args:
+            prop = props[arg.name]
+            exprs.append("    " + expr(prop.type, f'Prop(n, "{cpp_ident(prop.name)}")'))
+        lines.append(",\n".join(exprs))
+        lines.append("  );\n}")
+        builders.append("\n".join(lines))
+    lines = ["std::shared_ptr<types::IClass> Build(const Node& n) {"]
+    for cls in facts.concrete:
+        lines.append(f'  if (n.text == "{cpp_ident(cls)}") return Build_{cpp_ident(cls)}(n);')
+    lines.append('  throw std::runtime_error("C09: unknown class " + n.text);\n}')
+    builders.append("\n".join(lines))
+
+    tables: List[str] = ['  out << "{\\"tables\\": {\\"enums\\": {";']
+    for k, enum in enumerate(facts.enums):
+        e = names.call("enum_name", enum)
+        from_string = names.call("function_name", f"{enum}_from_string")
+        tables.append(f'  out << "{", " if k else ""}\\"{cpp_ident(enum)}\\": {{";')
+        for j, (lit, _) in enumerate(pm.classes[enum].literals):
+            value = f"types::{e}::{names.call('enum_literal_name', lit)}"
+            tables.append(
+                "  {\n"
+                f"    const std::string text = stringification::to_string({value});\n"
+                f"    const auto back = stringification::{from_string}(text);\n"
+                f'    out << "{", " if j else ""}\\"{cpp_ident(lit)}\\": [" << JsonOfNarrow(text) << ", "\n'
+                f'        << ((back.has_value() && *back == {value}) ? "true" : "false") << ", "\n'
+                f'        << JsonOfWide(wstringification::to_wstring({value})) << "]";\n'
+                "  }"
+            )
+        tables.append('  out << "}";')
+    tables.append('  out << "}, \\"constants\\": {";')
+    for k, (name, kind, elem) in enumerate(facts.constants):
+        const = f"constants::{names.call('constant_name', name)}"
+        tables.append(f'  out << "{", " if k else ""}\\"{cpp_ident(name)}\\": ";')
+        if kind.startswith("set_"):
+            if kind == "set_enum":
+                item = "JsonOfNarrow(stringification::to_string(v))"
+            elif elem == "str":
+                item = "JsonOfWide(v)"
+            elif elem == "bool":
+                item = '(v ? "true" : "false")'
+            elif elem == "float":
+                item = "JsonOfDouble(v)"
+            else:
+                item = "v"
+            tables.append(
+                '  {\n    out << "{\\"set\\": [";\n    bool first = true;\n'
+                f"    for (const auto& v : {const}) {{\n"
+                '      if (!first) out << ", ";\n      first = false;\n'
+                f"      out << {item};\n    }}\n"
+                '    out << "]}";\n  }'
+            )
+        else:
+            item = {
+                "str": f"JsonOfWide({const})",
+                "bool": f'({const} ? "true" : "false")',
+                "float": f"JsonOfDouble({const})",
+                "int": const,
+            }.get(elem)
+            if item is None:
+                tables.append(f'  out << "{{\\"unsupported\\": true}}";')
+            else:
+                tables.append(f'  out << "{{\\"value\\": " << {item} << "}}";')
+    tables.append('  out << "}}}" << std::endl;')
+
+    includes = "\n".join(
+        f'#include "{prefix}/{name}.hpp"'
+        for name in (
+            "common", "constants", "iteration", "stringification", "types", "verification",
+            "wstringification",
+        )
+    )
+    template = (NATIVE / "driver.cpp.in").read_text(encoding="utf-8")
+    return (
+        template.replace("@@INCLUDES@@", includes)
+        .replace("@@USING@@", f"using namespace {namespace};")
+        .replace("@@PROPERTY_TO_WSTRING@@", names.call("function_name", "property_to_wstring"))
+        .replace("@@BUILDERS@@", "\n\n".join(builders))
+        .replace("@@TABLES@@", "\n".join(tables))
+    )
+
+
+CXXFLAGS = [
+    "-std=c++17", "-O0", "-g0", "-w", "-fsanitize=address,undefined",
+    "-fno-sanitize-recover=all", "-fno-omit-frame-pointer",
+]
+MODEL_INDEPENDENT = ("common", "revm")
+SKIPPED_UNITS = ("jsonization", "xmlization")  # need nlohmann/json.hpp and expat
+
+
+def _object_cache() -> pathlib.Path:
+    path = env.scratch() / "c09-objcache"
+    path.mkdir(exist_ok=True)
+    return path
+
+
+def run_cpp(
+    tools: Toolchains, facts: Facts, gen: Generated, cases: List[Dict[str, Any]], timeout: float
+) -> LegResult:
+    """``cases``: [{"i", "cls", "inst" (abstract instance)}]."""
+    import concurrent.futures
+    import hashlib
+
+    from aas_core_codegen.cpp import common as cpp_common
+    from aas_core_codegen.common import Stripped
+
+    res = LegResult("cpp")
+    root = gen.root
+    deadline = time.time() + timeout
+    namespace = (gen.result.workdir / "snippets" / "namespace.txt").read_text().strip()
+    prefix = str(cpp_common.generate_include_prefix_path(Stripped(namespace)))
+    include = root / "include"
+    (root / "driver.cpp").write_text(cpp_driver_source(facts, namespace, prefix), encoding="utf-8")
+    lines: List[str] = []
+    for case in cases:
+        lines.append(f"C {case['i']}")
+        cpp_tokens(case["inst"], lines)
+    (root / "cases.txt").write_text("\n".join(lines) + "\n", encoding="utf-8")
+    obj = root / "obj"
+    obj.mkdir(exist_ok=True)
+    units = [
+        p for p in sorted((root / "src").glob("*.cpp")) if p.stem not in SKIPPED_UNITS
+    ] + [root / "driver.cpp"]
+    assert tools.gxx is not None
+    base = [tools.gxx] + CXXFLAGS + ["-I", str(include), "-I", str(TL_DIR)]
+
+    def compile_unit(path: pathlib.Path) -> Tuple[pathlib.Path, Optional[Proc], pathlib.Path]:
+        target = obj / (path.stem + ".o")
+        cached: Optional[pathlib.Path] = None
+        if path.stem in MODEL_INDEPENDENT:
+            digest = hashlib.sha256()
+            digest.update(" ".join(CXXFLAGS).encode())
+            digest.update(path.read_bytes())
+            for header in sorted((include / prefix).glob("*.hpp")):
+                if header.stem in MODEL_INDEPENDENT:
+                    digest.update(header.read_bytes())
+            cached = _object_cache() / f"{path.stem}-{digest.hexdigest()[:24]}.o"
+            if cached.exists():
+                shutil.copy(cached, target)
+                return path, None, target
+        proc = run_group(
+            base + ["-c", str(path), "-o", str(target)], root, max(deadline - time.time(), 5.0)
+        )
+        if proc.rc == 0 and cached is not None:
+            tmp = cached.with_suffix(f".tmp{os.getpid()}")
+            shutil.copy(target, tmp)
+            os.replace(tmp, cached)
+        return path, proc, target
+
+    t0 = time.time()
+    # the heavy units first
+    order = sorted(units, key=lambda p: -p.stat().st_size)
+    objects: List[str] = []
+    with concurrent.futures.ThreadPoolExecutor(max_workers=CPP_JOBS) as pool:
+        for path, proc, target in pool.map(compile_unit, order):
+            if proc is not None and proc.rc is None:
+                res.status, res.detail = "timeout", f"g++ {path.name}"
+            elif proc is not None and proc.rc != 0 and res.status == "ok":
+                res.status, res.detail = "build-failed", (proc.err + proc.out)[-6000:]
+            objects.append(str(target))
+    res.seconds["compile"] = time.time() - t0
+    if res.status != "ok":
+        return res
+    proc = run_group(
+        [tools.gxx, "-fsanitize=address,undefined", "-o", "driver"] + objects,
+        root, max(deadline - time.time(), 5.0),
+    )
+    res.seconds["link"] = proc.seconds
+    if proc.rc is None:
+        res.status, res.detail = "timeout", "link"
+        return res
+    if proc.rc != 0:
+        res.status, res.detail = "build-failed", (proc.err + proc.out)[-6000:]
+        return res
+    log = root / "sanitizer"
+    proc = run_group(
+        [str(root / "driver"), "cases.txt", "out.jsonl"], root, max(deadline - time.time(), 5.0),
+        extra_env={
+            "ASAN_OPTIONS": f"log_path={log}:detect_leaks=1:abort_on_error=0",
+            "UBSAN_OPTIONS": f"log_path={log}:print_stacktrace=1",
+        },
+    )
+    res.seconds["run"] = proc.seconds
+    reports = sorted(root.glob("sanitizer.*"))
+    if reports:
+        res.sanitizer_reports = len(reports)
+        res.sanitizer_text = "\n".join(
+            p.read_text(encoding="utf-8", errors="replace")[:4000] for p in reports[:3]
+        )
+    if proc.rc is None:
+        res.status, res.detail = "timeout", "driver"
+        return res
+    res.records = read_jsonl(root / "out.jsonl")
+    res.index()
+    if proc.rc != 0 and not reports:
+        res.status, res.detail = "run-failed", (proc.err + proc.out)[-6000:]
+    return res
+
+
+CPP_JOBS = int(os.environ.get("VERIF_C09_CPP_JOBS", "3"))
